@@ -168,6 +168,9 @@ struct Case {
     /// Some((spelling, normalized path)): the input is this single file, written in a
     /// non-normalized way (`./src/a.lua`, `src/./a.lua`, `src/x/../a.lua`), with an output file
     single: Option<(String, String)>,
+    /// Some(path): the configuration is read from this file (patterns still match the path of the
+    /// source as darklua sees it, wherever the configuration file sits); None: given as a value
+    config_at: Option<String>,
 }
 
 fn list_json(l: &[String], single_form: bool) -> Value {
@@ -213,6 +216,7 @@ impl Case {
             "in_place": self.in_place,
             "generator": self.generator,
             "single": self.single.as_ref().map(|(a, b)| json!([a, b])),
+            "config_at": self.config_at,
         })
     }
     fn from_json(v: &Value) -> Option<Case> {
@@ -228,6 +232,7 @@ impl Case {
             in_place: v.get("in_place").and_then(|b| b.as_bool()).unwrap_or(false),
             generator: v.get("generator").and_then(|g| g.as_str()).unwrap_or("").to_string(),
             single: v.get("single").and_then(|s| s.as_array()).and_then(|a| Some((a.first()?.as_str()?.to_string(), a.get(1)?.as_str()?.to_string()))),
+            config_at: v.get("config_at").and_then(|s| s.as_str()).map(|s| s.to_string()),
         })
     }
 }
@@ -274,7 +279,15 @@ fn gen_case(t: &mut Tape) -> Case {
     } else {
         None
     };
-    Case { files, top_apply, top_skip, rules, single_form: t.bool(128), in_place, generator, single }
+    let single_form = t.bool(128);
+    let config_at = match t.choose(8) {
+        0 => Some(".darklua.json".to_string()),
+        1 => Some("src/.darklua.json".to_string()),
+        2 => Some("src/sub/conf.json5".to_string()),
+        3 => Some("conf/settings.json".to_string()),
+        _ => None,
+    };
+    Case { files, top_apply, top_skip, rules, single_form, in_place, generator, single, config_at }
 }
 
 fn check(case: &Case) -> Result<bool, String> {
@@ -284,10 +297,17 @@ fn check(case: &Case) -> Result<bool, String> {
     for (p, c) in &case.files {
         resources.write(p, c).unwrap();
     }
+    if let Some(at) = &case.config_at {
+        resources.write(at, &config_text).unwrap();
+    }
     let r = catch(|| {
-        let mut options = match &case.single {
-            Some((spelled, _)) => Options::new(Path::new(spelled)).with_configuration(config),
-            None => Options::new(Path::new("src")).with_configuration(config),
+        let options = match &case.single {
+            Some((spelled, _)) => Options::new(Path::new(spelled)),
+            None => Options::new(Path::new("src")),
+        };
+        let mut options = match &case.config_at {
+            Some(at) => options.with_configuration_at(Path::new(at)),
+            None => options.with_configuration(config),
         };
         if case.single.is_some() {
             options = options.with_output(Path::new("out/one.lua"));
